@@ -380,3 +380,21 @@ Proof.
   rewrite (iter_level_fuel rv tg (rch t) (size t + k)) by lia.
   rewrite (iter_level_fuel rv tg (rch t) (size t)) by lia. reflexivity.
 Qed.
+
+(* inside one level, "earlier sibling sub-tree" is the same as "earlier in document (pre-order) position":
+   level order is the lexicographic order on (depth, document position) *)
+Theorem same_depth_docpos f x y d :
+  NoDup (ids f) -> depth_f f x d -> depth_f f y d -> x <> y -> (left_f f x y <-> before (ids f) x y).
+Proof.
+  intros ND Dx Dy Hne. split; [apply left_before|]. intros Hb.
+  apply (pre_order_char f x y ND (depth_f_in _ _ _ Dx) (depth_f_in _ _ _ Dy) Hne) in Hb as [H|H]; [exfalso|exact H].
+  pose proof (anc_depth_f f x y d d ND H Dx Dy). lia.
+Qed.
+
+(* every node of the forest has exactly one depth *)
+Theorem depth_exists_unique f x :
+  NoDup (ids f) -> In x (ids f) -> exists d, depth_f f x d /\ forall d', depth_f f x d' -> d' = d.
+Proof.
+  intros ND Hx. destruct (depth_total_f f x Hx) as (d & Hd). exists d. split; [exact Hd|].
+  intros d' Hd'. eapply depth_f_fun; eauto.
+Qed.
